@@ -18,8 +18,9 @@ def indices(s: slice, length: int) -> tuple[int, int | None, int]:
     return start, stop, step
 
 def clamp_step(key: slice, length: int) -> slice:
-    """A step beyond the length selects the same items as a step of the length, which is always safe to hand to bitarray."""
-    limit = max(length, 1)
+    """A step beyond the length selects the same items as a step of the length, which is always safe to hand to bitarray.
+    (Never below 2: a step of 1 means a plain slice, which may change the length when assigned to.)"""
+    limit = max(length, 2)
     if isinstance(key.step, int) and abs(key.step) > limit:
         return slice(key.start, key.stop, limit if key.step > 0 else -limit)
     return key
